@@ -187,6 +187,25 @@ def o_linearity(case):
 
 
 @oracle
+def o_homogeneity(case):
+    """solver(s q, s c) = s solver(q, c) for scale factors over eighteen decades: nothing in the response may
+    depend on the absolute magnitude of the inputs (absolute thresholds, `isclose`, noise flushing, dtype limits)"""
+    s = case["par"]["s"]
+    base = {k: v for k, v in case.items() if k != "par"}
+    base["footprint"] = False
+    base["precision"] = "double"
+    r1 = solve3(base)
+    r2 = solve3(dict(base, q=s * np.array(base["q"]), bg=s * base["bg"]))
+    for name, k in (("conc", 0), ("flx", 1)):
+        sc = max(float(np.max(np.abs(r1[k]))), 1e-300)
+        err = float(np.max(np.abs(r2[k] / s - r1[k]))) / sc
+        if not err <= 1e-10:
+            return fail("C04/homogeneity/%s" % name, "%s of inputs scaled by %.3e is not the scaled %s" % (name, s, name),
+                        None, "relative error <= 1e-10", err, 1e-10)
+    return None
+
+
+@oracle
 def o_bg_offset(case):
     """background adds a uniform offset to conc and never changes flx"""
     base = {k: v for k, v in case.items() if k != "par"}
@@ -200,6 +219,9 @@ def o_bg_offset(case):
             return fail("C04/bg-changes-flux", "flux changes with the background concentration", None, "identical flux", e, 1e-13)
     off = r2[0] - r1[0]
     sc = max(abs(c2 - case["bg"]), 1e-300)
+    if case["precision"] == "single":
+        # both fields are stored in float32: the difference carries the storage rounding of the larger of them
+        sc = max(sc, float(np.max(np.abs(r1[0]))), float(np.max(np.abs(r2[0]))))
     err = float(np.max(np.abs(off - (c2 - case["bg"]))) / max(sc, np.max(np.abs(r1[0])) * 1e-3 + 1e-300))
     if not err <= max(tol, 1e-9):
         return fail("C04/bg-offset", "background is not a uniform offset of the concentration", None,
@@ -237,6 +259,13 @@ def run_C04(rng, tier, deep):
             run_oracle(st, o_bg_offset, c)
         if rng.random() < 0.5:
             run_oracle(st, o_fp_indep_q, c)
+    for _ in range(budget(tier, deep, 16, 160)):
+        c = random_case(rng)
+        ny, nx = c["q"].shape
+        c["q"] = random_source(rng, ny, nx, str(rng.choice(["signed", "random", "sparse", "smooth"])))
+        c["bg"] = float(rng.choice([0.0, rng.normal()]))
+        c["par"] = dict(s=float(10.0 ** rng.uniform(-12, 6)))
+        run_oracle(st, o_homogeneity, c)
     return finish(st, "random structured solver requests (sizes 2..8, halo none/zero/commensurate/incommensurate, levels scalar/asc/shuffled/repeated/top, "
                   "uniform/varying profiles, both precisions, both modes, analytic/numeric); distinct = distinct canonical request; "
                   "oracle: three real solves per linearity case with sign-changing sources", deep, TOL)
@@ -648,6 +677,36 @@ def o_recentre(case):
     return None
 
 
+@oracle
+def o_recentre_any(case):
+    """any grid parity, periodic domain: a measurement point at the domain centre leaves the output un-shifted, and
+    moving it by whole cells (k, m) translates the output by the same cells (the value that was at centre + (m, k)
+    comes to the centre)"""
+    par = case["par"]
+    k, m = par["k"], par["m"]
+    base = dict(base_of(case), footprint=False, halo=0.0)
+    ny, nx = base["q"].shape
+    xmx, ymx = base["domain"]
+    dx, dy = xmx / nx, ymx / ny
+    a = solve3(dict(base, meas_pt=(0.0, 0.0)))
+    c0 = solve3(dict(base, meas_pt=(xmx / 2, ymx / 2)))
+    if xmx / 2 + k * dx == 0.0 and ymx / 2 + m * dy == 0.0:
+        k += 1          # (0, 0) is the documented "no re-centring" request, not a point to centre on
+    c1 = solve3(dict(base, meas_pt=(xmx / 2 + k * dx, ymx / 2 + m * dy)))
+    tol = 1e-9 if base["precision"] == "double" else 3e-5
+    fl = field_floor(base)
+    for name, i in (("conc", 0), ("flx", 1)):
+        e = relerr(a[i], c0[i], scale=fl[i])
+        if not e <= tol:
+            return fail("C06/recentre-centre/%s" % name, "a measurement point at the domain centre changes the %s (grid %dx%d)" % (name, nx, ny),
+                        None, "equal", e, tol)
+        e = relerr(np.roll(a[i], (-m, -k), axis=(1, 2)), c1[i], scale=fl[i])
+        if not e <= tol:
+            return fail("C06/recentre-cells/%s" % name, "moving the measurement point by whole cells (%d, %d) from the centre does not translate the %s by "
+                        "those cells (grid %dx%d)" % (k, m, name, nx, ny), None, "equal", e, tol)
+    return None
+
+
 def even_case(rng, **kw):
     while True:
         c = random_case(rng, **kw)
@@ -680,6 +739,10 @@ def run_C06(rng, tier, deep):
         if rng.random() < 0.4:
             c2["halo"] = 0.0
         run_oracle(st, o_recentre, c2)
+        c3 = random_case(rng)
+        ny3, nx3 = c3["q"].shape
+        c3["par"] = dict(k=int(rng.integers(-nx3, nx3 + 1)), m=int(rng.integers(-ny3, ny3 + 1)))
+        run_oracle(st, o_recentre_any, c3)
     return finish(st, "random requests with on-grid towers; oracles: np.roll of the source / of the tower position (incl. wrap-around, shifts in [-n, 2n)), "
                   "point reflection against a unit-source dispersion run, re-centring value and full periodic roll (halo=0)", deep, TOL)
 
